@@ -37,7 +37,7 @@ LEVEL_NOTE = (
     "strictly positive whenever the tolerance is below half the smallest eigenvalue of the reference; exact comparisons for stored points, counts, order, eviction "
     "and the no-op on reject."
 )
-TECHNIQUE = "deterministic simulation: stateful operation histories (incl. failed operations and restore) against an executable reference model; in-run interception"
+TECHNIQUE = "deterministic simulation: stateful operation histories (incl. failed operations and restore) against an executable reference model; in-run interception at the update site and at the use site (Cauchy-point call) of live runs, also with a history rewritten by an update function"
 DESIGN_REF = "DESIGN.md 4.6, 7.3"
 BUDGET = {
     "quick": {"plans": 25000, "wall": 90, "chunk": 16},
